@@ -179,6 +179,14 @@ V_C19(e, okR, c, r, r2, rec, st2) ==
      If(~okR /\ ~Unchanged(rec, st2), Lbl("C19", "failed_message_changed_state", e.act))
 \cup If(\E x \in Chains \ {c} : st2[x] # cs[x] \/ rec.dig[x] # dig[x] \/ rec.app[x] # app[x],
         Lbl("C19", "step_changed_another_chain", e.act))
+\cup \* a packet answered with an error acknowledgement (the application's or the relay chain's refusal): the packet layer
+     \* records exactly the receipt and that acknowledgement (and the highest acknowledged sequence that goes with it)
+     {Lbl("C19", "error_ack_recorded_more_than_receipt_and_ack", RoleOf(c, e.pkt)) :
+        w \in {w \in SetOf(rec.wack) : e.act = "Recv" /\ okR /\ w[4] \in {"unauth", "err"} /\
+                  [r2 EXCEPT !.ex = r.ex] #
+                  [r EXCEPT !.rc = @ \cup {<<e.pkt.src, e.pkt.dst, e.pkt.seq>>},
+                            !.ak = @ \cup {<<e.pkt.src, e.pkt.dst, e.pkt.seq, w[4]>>},
+                            !.ma = Set3(@, e.pkt.src, e.pkt.dst, MaxN(MaR(r, e.pkt.src, e.pkt.dst), e.pkt.seq))]}}
 
 \* C16: a chain re-created from its exported genesis has the same state, key by key (the harness lists the classes of
 \* keys whose presence or value differs between the original and the re-imported stores)
@@ -191,8 +199,33 @@ Violations(e, okR, rec, st2, pred) ==
   \cup V_C09(e, okR, c, r, r2, rec, st2) \cup V_C10(e, okR, c, r, r2, rec, st2) \cup V_C11(e, okR, c, r, r2, rec, st2)
   \cup V_C13(e, okR, c, r, r2, rec, st2) \cup V_C14(e, okR, c, r, r2, rec, st2) \cup V_C19(e, okR, c, r, r2, rec, st2)
 
+(* Query layer (modules/tibc/core/keeper/grpc_query.go and the keepers' query servers): what a relayer is told about    *)
+(* chain x must be exactly what x has stored.  j = the raw projected record of one chain, r = its converted state.     *)
+(* Paginated list queries (page size 2, every page followed) return every stored entry of the channel exactly once;   *)
+(* single-key queries agree with them; UnreceivedPackets(S) = the asked sequences without receipt; UnreceivedAcks(S)  *)
+(* = the asked sequences whose commitment is still stored; the clean point, client list and routing rules are as      *)
+(* stored.  Listed in div (no listed property speaks about queries except C16, which compares them across export).    *)
+Pair(x)  == x[1] # x[2] /\ x[1] \in Chains /\ x[2] \in Chains
+InK(x, k) == x[3] >= 1 /\ x[3] <= k
+QueryLayer(j, r) ==
+  LET q == j.q  k == q.k
+      Ask == {<<s, d, n>> : s \in Chains, d \in Chains, n \in 1..k} IN
+     If(SetOf(q.cm) # {x \in r.cm : Pair(x)} \/ Len(q.cm) # Cardinality(SetOf(q.cm)), "PacketCommitments")
+\cup If(SetOf(q.cm1) # {x \in r.cm : Pair(x) /\ InK(x, k)}, "PacketCommitment")
+\cup If(SetOf(q.ak) # {x \in r.ak : Pair(x)} \/ Len(q.ak) # Cardinality(SetOf(q.ak)), "PacketAcknowledgements")
+\cup If(SetOf(q.ak1) # {x \in r.ak : Pair(x) /\ InK(x, k)}, "PacketAcknowledgement")
+\cup If(SetOf(q.rc) # {x \in r.rc : Pair(x) /\ InK(x, k)}, "PacketReceipt")
+\cup If(SetOf(q.ur) # {x \in Ask : x[1] # x[2] /\ x \notin r.rc}, "UnreceivedPackets")
+\cup If(SetOf(q.ua) # {x \in Ask : x[1] # x[2] /\ HasCm(r, x[1], x[2], x[3])}, "UnreceivedAcks")
+\cup If(SetOf(q.cp) # {x \in r.cp : Pair(x)}, "CleanPacketCommitment")
+\cup If(SetOf(q.cl) \cap Chains # r.cl, "ClientStates")
+\cup If(SetOf(q.rules) # r.rules, "RoutingRules")
+\cup If(Len(q.err) # 0, "query_failed")
+QueryDiv(rec, st2) == UNION {{[f |-> "query_layer", d |-> n] : n \in QueryLayer(rec.st[x], st2[x])} : x \in Chains}
+
 Divergence(e, okR, rec, st2, pred) ==
   LET c == e.c IN
+     QueryDiv(rec, st2) \cup
      If(pred.ok # okR, [f |-> "outcome", d |-> IF pred.ok THEN "spec accepts, code rejects" ELSE "spec rejects, code accepts"])
 \cup If(pred.ok = okR /\ pred.r # st2[c], [f |-> "post_state", d |-> e.act])
 \cup If(pred.ok = okR /\ okR /\ pred.calls # CallsOf(rec), [f |-> "callbacks", d |-> e.act])
